@@ -318,6 +318,14 @@ def asan_signature(stderr):
         if "/src/" in loc and "harness" not in loc and "libsanitizer" not in loc and "sysdeps" not in loc:
             frame = "%s@%s" % (fn, os.path.basename(loc).rsplit(":", 1)[0] if loc.count(":") > 1 else os.path.basename(loc))
             break
+    if frame == "?":
+        # no library frame on the stack: the access happened in the harness itself (on a pointer / length the library
+        # handed out, or a harness defect - triage starts there)
+        for fm in _re_frame.finditer(stderr):
+            fn, loc = fm.group(1), fm.group(2)
+            if "/harness/" in loc:
+                frame = "in-harness:%s" % fn
+                break
     return kind, frame
 
 
